@@ -90,8 +90,13 @@ def findChildTag (c : Ctx) (p : Loc) (tag : String) : Option Loc :=
     | none => false
 
 /-- `for tag in ('html', 'head')`: the `head` element, when both are found. -/
+def findHtml (c : Ctx) (start : Loc) : Option Loc :=
+  match start.elem? with
+  | some e => if !start.isDoc && c.tagName e == "html".toStr && c.isHtmlTag e then some start else findChildTag c start "html"
+  | none => findChildTag c start "html"
+
 def findHead (c : Ctx) (start : Loc) : Option Loc :=
-  match findChildTag c start "html" with
+  match findHtml c start with
   | none => none
   | some html => findChildTag c html "head"
 
@@ -106,15 +111,8 @@ def scanHead (c : Ctx) (head : Loc) : Option NVal :=
         if c.tagName me == "meta".toStr && c.isHtmlTag he then metaLangScan me.attrs false none else none
       | none => none
 
-/-- `not self.is_xml or (has_html_namespace and root and root.name == 'html')` for `root = last`. -/
-def metaCond (c : Ctx) (last : Loc) : Bool :=
-  let rootHtmlNs := match last.elem? with
-    | some e => (match e.ns with | some n => !n.isEmpty && n == NS_XHTML | none => false)
-    | none => false
-  let rootIsHtmlName := match last.elem? with
-    | some e => e.name == "html".toStr
-    | none => false
-  !c.isXml || (rootHtmlNs && rootIsHtmlName)
+/-- `self.is_html`: the pragma is consulted in HTML documents (XHTML included). -/
+def metaCond (c : Ctx) (_last : Loc) : Bool := c.isHtml
 
 /-- The language of an element as `match_lang` determines it, with `cached_meta_lang`.
     * the table is consulted only when the parent walk found no `lang`;
